@@ -235,6 +235,7 @@ func chop(s string, sizes []int) []string {
 
 // GenC05: BDAT framing.
 func GenC05(rng *rand.Rand, thorough bool, emit func(*Sx)) {
+	genF6Witness(rng, emit)
 	chunkings := [][]int{{1 << 20}, {0, 1 << 20}, {3, 0, 4}, {1, 1, 1}, {5}, {0}}
 	states := []string{"ok", "nomail", "allrej", "badlast", "over", "lmtp", "lmtpsess"}
 	lastModes := []string{"last", "emptylast", "nolast"}
@@ -375,6 +376,25 @@ func GenC05(rng *rand.Rand, thorough bool, emit func(*Sx)) {
 	}
 }
 
+// genF6Witness: the known finding F6 - payload in the same raw read as its
+// BDAT command passes through the line limiter. The expectation stated here is
+// the property's (250); the implementation answers 500 and closes.
+func genF6Witness(rng *rand.Rand, emit func(*Sx)) {
+	for _, last := range []string{" LAST", ""} {
+		cfg := DefaultCfg()
+		cfg.MaxLine = 60
+		f := newF(cfg)
+		f.hello()
+		f.cmd("MAIL FROM:<s@ok>", 250)
+		f.cmd("RCPT TO:<r@ok>", 250)
+		f.cut()
+		f.cmd("BDAT 100"+last, 250)
+		f.raw(strings.Repeat("x", 100))
+		f.cmd("QUIT", 221)
+		emit(RunConv(f.caseOf("C05", segStream(rng, f.out, f.cuts, 0, rawEOF))))
+	}
+}
+
 // GenC06: the message size limit.
 func GenC06(rng *rand.Rand, thorough bool, emit func(*Sx)) {
 	limits := []int{2, 5, 10, 12, 50}
@@ -483,6 +503,85 @@ func GenC06(rng *rand.Rand, thorough bool, emit func(*Sx)) {
 					f.add(L(A("must-mail"), XS("after@ok")))
 					emit(RunConv(f.caseOf("C06", segStream(rng, f.out, f.cuts, (li+si+ci)%4, rawEOF))))
 				}
+			}
+		}
+		// ---- declared chunk sizes that do not fit 32 / 63 / 64 bits, then a message over the limit ----
+		for _, huge := range []string{"4294967296", "9223372036854775807", "9223372036854775808", "18446744073709551615", "18446744073709551616"} {
+			for _, lmtp := range []bool{false, true} {
+				cfg := DefaultCfg()
+				cfg.MaxBytes = int64(N)
+				cfg.LMTP = lmtp
+				f := newF(cfg)
+				f.hello()
+				f.cmd("MAIL FROM:<s@ok>", 250)
+				f.cmd("RCPT TO:<r@ok>", 250)
+				f.script.Data = []DataPlan{DefaultPlan()}
+				if huge == "4294967295" {
+					// parseable and far over the limit: 552, transaction reset (no octets follow)
+					f.cmd("BDAT "+huge, 552)
+					f.cmd("MAIL FROM:<s@ok>", 250)
+					f.cmd("RCPT TO:<r@ok>", 250)
+				} else {
+					f.cmd("BDAT "+huge, 501)
+				}
+				f.cmd(fmt.Sprintf("BDAT %d", N), 250)
+				f.cut()
+				f.raw(strings.Repeat("h", N))
+				f.cmd(fmt.Sprintf("BDAT %d LAST", N), 552)
+				f.cut()
+				f.raw(strings.Repeat("i", N))
+				f.cmd("MAIL FROM:<after@ok>", 250)
+				f.cmd("QUIT", 221)
+				f.add(L(A("must-mail"), XS("after@ok")))
+				emit(RunConv(f.caseOf("C06", segStream(rng, f.out, f.cuts, li%2, rawEOF))))
+			}
+		}
+		// ---- consecutive transactions: each message is measured on its own ----
+		for _, via := range []string{"bdat-bdat", "bdat-data", "data-bdat", "rset-bdat"} {
+			for _, lmtp := range []bool{false, true} {
+				cfg := DefaultCfg()
+				cfg.MaxBytes = int64(N)
+				cfg.LMTP = lmtp
+				f := newF(cfg)
+				f.hello()
+				msg := func(kind string, last bool) {
+					f.cmd("MAIL FROM:<s@ok>", 250)
+					f.cmd("RCPT TO:<r@ok>", 250)
+					if kind == "data" {
+						if N < 2 {
+							kind = "bdat"
+						} else {
+							f.cmd("DATA", 354)
+							f.raw(strings.Repeat("d", N-2) + "\r\n.\r\n")
+							f.expect(250)
+							return
+						}
+					}
+					if last {
+						f.cmd(fmt.Sprintf("BDAT %d LAST", N), 250)
+					} else {
+						f.cmd(fmt.Sprintf("BDAT %d", N), 250)
+					}
+					f.cut()
+					f.raw(strings.Repeat("t", N))
+				}
+				switch via {
+				case "bdat-bdat":
+					msg("bdat", true)
+					msg("bdat", true)
+				case "bdat-data":
+					msg("bdat", true)
+					msg("data", true)
+				case "data-bdat":
+					msg("data", true)
+					msg("bdat", true)
+				case "rset-bdat":
+					msg("bdat", false)
+					f.cmd("RSET", 250)
+					msg("bdat", true)
+				}
+				f.cmd("QUIT", 221)
+				emit(RunConv(f.caseOf("C06", segStream(rng, f.out, f.cuts, li%2, rawEOF))))
 			}
 		}
 		// ---- SIZE= ----
